@@ -17,6 +17,7 @@ import (
 	"strings"
 
 	"google.golang.org/protobuf/compiler/protogen"
+	"google.golang.org/protobuf/types/descriptorpb"
 	"google.golang.org/protobuf/types/pluginpb"
 
 	"verif/harness/plugin"
@@ -169,6 +170,55 @@ func (w *Workspace) Add(s *schema.Schema, param string, clientFirst bool) (*Unit
 			return nil, err
 		}
 	}
+	// companion files (a shared types package of a per-package build) are generated by their own invocation
+	var companions []string
+	for _, f := range s.Files {
+		if f.Companion {
+			companions = append(companions, f.Name)
+		}
+	}
+	if len(companions) > 0 {
+		main := req
+		comp := func(par string) *pluginpb.CodeGeneratorRequest {
+			r, _ := schema.Request(par, s)
+			r.FileToGenerate = companions
+			var sfd []*descriptorpb.FileDescriptorProto
+			for _, fd := range r.ProtoFile {
+				for _, n := range companions {
+					if fd.GetName() == n {
+						sfd = append(sfd, fd)
+					}
+				}
+			}
+			r.SourceFileDescriptors = sfd
+			return r
+		}
+		runComp := func(name, par string) {
+			r := comp(par)
+			var res *plugin.Result
+			if name == plugin.ProtoGo {
+				res = (&plugin.Set{Dir: w.ToolDir}).Run(name, r, plugin.Opts{})
+			} else {
+				res = w.Set.Run(name, r, plugin.Opts{})
+			}
+			if c, why := res.Crashed(); c {
+				u.PluginErr[name] = "CRASH (companion package): " + why + ": " + trunc(res.Stderr, 400)
+				return
+			}
+			if e := res.Err(); e != "" {
+				u.PluginErr[name] = "companion package: " + e
+				return
+			}
+			for n, c := range res.Files() {
+				u.Files[strings.TrimPrefix(n, ModulePath+"/")] = c
+			}
+		}
+		_ = main
+		runComp(plugin.ProtoGo, "")
+		for _, n := range order {
+			runComp(n, "")
+		}
+	}
 	for n := range u.Files {
 		if strings.HasSuffix(n, "_http_mock.pb.go") {
 			u.HasMock = true
@@ -250,9 +300,11 @@ func (w *Workspace) BuildAndVet() error {
 		per := splitByPackage(out)
 		matched := false
 		for _, u := range w.Units {
-			if c, ok := per[u.PkgPath]; ok {
-				u.BuildErr = c
-				matched = true
+			for pkg, c := range per {
+				if pkg == u.PkgPath || strings.HasPrefix(pkg, u.PkgPath+"/") {
+					u.BuildErr += c
+					matched = true
+				}
 			}
 		}
 		if !matched {
@@ -264,6 +316,11 @@ func (w *Workspace) BuildAndVet() error {
 	for _, u := range w.Units {
 		if u.BuildErr == "" {
 			pkgs = append(pkgs, u.PkgPath)
+			for _, f := range u.Schema.Files {
+				if f.Companion && f.GoPath != "" {
+					pkgs = append(pkgs, f.GoPath)
+				}
+			}
 		}
 	}
 	if len(pkgs) == 0 {
@@ -275,9 +332,11 @@ func (w *Workspace) BuildAndVet() error {
 		per := splitByPackage(out)
 		matched := false
 		for _, u := range w.Units {
-			if c, ok := per[u.PkgPath]; ok {
-				u.VetErr = c
-				matched = true
+			for pkg, c := range per {
+				if pkg == u.PkgPath || strings.HasPrefix(pkg, u.PkgPath+"/") {
+					u.VetErr += c
+					matched = true
+				}
 			}
 		}
 		if !matched {
